@@ -7,6 +7,7 @@ import (
 	"go/parser"
 	"go/token"
 	"go/types"
+	"os"
 	"path/filepath"
 	"regexp"
 	"strconv"
@@ -69,6 +70,7 @@ type c20Data struct {
 	byName    map[string]*c20Type
 	TypesPath string
 	StrPath   string
+	Extra     []string // constants of generated types declared outside types.go
 }
 
 func c20Parse() (*c20Data, error) { return c20ParseFull(false) }
@@ -162,6 +164,69 @@ func c20ParseFull(typesOnly bool) (*c20Data, error) {
 			}
 		default:
 			return nil, fmt.Errorf("types.go: unexpected %s declaration at %s", gd.Tok, fset.Position(gd.Pos()))
+		}
+	}
+
+	// ---- constants of the generated types declared in OTHER files of the package (e.g. added by hand next to
+	// types.go): the stringer only sees types.go, so such a constant has no entry in the string tables; the
+	// property quantifies over every named constant of the type
+	ents, err := os.ReadDir(repoRoot)
+	if err != nil {
+		return nil, err
+	}
+	for _, e := range ents {
+		n := e.Name()
+		if e.IsDir() || !strings.HasSuffix(n, ".go") || strings.HasSuffix(n, "_test.go") || n == "types.go" || n == "types_string.go" {
+			continue
+		}
+		src, err := os.ReadFile(filepath.Join(repoRoot, n))
+		if err != nil {
+			return nil, err
+		}
+		if strings.Contains(string(src[:min(len(src), 400)]), "//go:build") {
+			continue // build-tag guarded files (instrumentation hooks, fuzzing) are not part of the default package
+		}
+		of, err := parser.ParseFile(fset, filepath.Join(repoRoot, n), src, 0)
+		if err != nil {
+			return nil, err
+		}
+		if of.Name.Name != "fit" {
+			continue
+		}
+		for _, decl := range of.Decls {
+			gd, ok := decl.(*ast.GenDecl)
+			if !ok || gd.Tok != token.CONST {
+				continue
+			}
+			for _, sp := range gd.Specs {
+				vs := sp.(*ast.ValueSpec)
+				id, ok := vs.Type.(*ast.Ident)
+				if !ok {
+					continue
+				}
+				t := d.byName[id.Name]
+				if t == nil {
+					continue
+				}
+				for i, nm := range vs.Names {
+					if nm.Name == "_" {
+						continue
+					}
+					if i >= len(vs.Values) {
+						return nil, fmt.Errorf("%s: constant %s of generated type %s has no literal value (iota?)", n, nm.Name, t.Name)
+					}
+					lit, ok := vs.Values[i].(*ast.BasicLit)
+					if !ok || lit.Kind != token.INT {
+						return nil, fmt.Errorf("%s: constant %s of generated type %s is not an integer literal", n, nm.Name, t.Name)
+					}
+					u, err := strconv.ParseUint(lit.Value, 0, 64)
+					if err != nil {
+						return nil, fmt.Errorf("%s: constant %s: %v", n, nm.Name, err)
+					}
+					t.Consts = append(t.Consts, c20Const{nm.Name, u})
+					d.Extra = append(d.Extra, n+":"+nm.Name)
+				}
+			}
 		}
 	}
 
